@@ -297,3 +297,137 @@ pub fn b64(data: &[u8]) -> String {
     }
     out
 }
+
+// ------------------------------------------------------------------------------------------------
+// RFC 3986 §5.2 reference resolution (independent of the `url` crate).
+
+#[derive(Clone, Debug, Default, PartialEq)]
+pub struct UriRef {
+    pub scheme: Option<String>,
+    pub authority: Option<String>,
+    pub path: String,
+    pub query: Option<String>,
+    pub fragment: Option<String>,
+}
+
+/// Appendix B: ^(([^:/?#]+):)?(//([^/?#]*))?([^?#]*)(\?([^#]*))?(#(.*))?
+pub fn parse_uri_ref(s: &str) -> UriRef {
+    let mut r = UriRef::default();
+    let mut rest = s;
+    if let Some(i) = rest.find(|c| c == ':' || c == '/' || c == '?' || c == '#') {
+        if rest.as_bytes()[i] == b':' && i > 0 {
+            r.scheme = Some(rest[..i].to_string());
+            rest = &rest[i + 1..];
+        }
+    }
+    if let Some(stripped) = rest.strip_prefix("//") {
+        let end = stripped.find(|c| c == '/' || c == '?' || c == '#').unwrap_or(stripped.len());
+        r.authority = Some(stripped[..end].to_string());
+        rest = &stripped[end..];
+    }
+    let pend = rest.find(|c| c == '?' || c == '#').unwrap_or(rest.len());
+    r.path = rest[..pend].to_string();
+    rest = &rest[pend..];
+    if let Some(q) = rest.strip_prefix('?') {
+        let end = q.find('#').unwrap_or(q.len());
+        r.query = Some(q[..end].to_string());
+        rest = &q[end..];
+    }
+    if let Some(f) = rest.strip_prefix('#') {
+        r.fragment = Some(f.to_string());
+    }
+    r
+}
+
+/// §5.2.4
+pub fn remove_dot_segments(path: &str) -> String {
+    let mut input = path.to_string();
+    let mut out: Vec<String> = vec![];
+    while !input.is_empty() {
+        if let Some(r) = input.strip_prefix("../") {
+            input = r.to_string();
+        } else if let Some(r) = input.strip_prefix("./") {
+            input = r.to_string();
+        } else if let Some(r) = input.strip_prefix("/./") {
+            input = format!("/{}", r);
+        } else if input == "/." {
+            input = "/".to_string();
+        } else if let Some(r) = input.strip_prefix("/../") {
+            input = format!("/{}", r);
+            out.pop();
+        } else if input == "/.." {
+            input = "/".to_string();
+            out.pop();
+        } else if input == "." || input == ".." {
+            input.clear();
+        } else {
+            let start = if input.starts_with('/') { 1 } else { 0 };
+            let end = input[start..].find('/').map(|i| i + start).unwrap_or(input.len());
+            out.push(input[..end].to_string());
+            input = input[end..].to_string();
+        }
+    }
+    out.concat()
+}
+
+/// §5.2.2 (strict) + §5.3 recomposition
+pub fn resolve_ref(base: &str, reference: &str) -> String {
+    let b = parse_uri_ref(base);
+    let r = parse_uri_ref(reference);
+    let mut t = UriRef::default();
+    if r.scheme.is_some() {
+        t.scheme = r.scheme.clone();
+        t.authority = r.authority.clone();
+        t.path = remove_dot_segments(&r.path);
+        t.query = r.query.clone();
+    } else {
+        if r.authority.is_some() {
+            t.authority = r.authority.clone();
+            t.path = remove_dot_segments(&r.path);
+            t.query = r.query.clone();
+        } else {
+            if r.path.is_empty() {
+                t.path = b.path.clone();
+                t.query = if r.query.is_some() { r.query.clone() } else { b.query.clone() };
+            } else {
+                if r.path.starts_with('/') {
+                    t.path = remove_dot_segments(&r.path);
+                } else {
+                    // merge (§5.2.3)
+                    let merged = if b.authority.is_some() && b.path.is_empty() {
+                        format!("/{}", r.path)
+                    } else {
+                        match b.path.rfind('/') {
+                            Some(i) => format!("{}{}", &b.path[..=i], r.path),
+                            None => r.path.clone(),
+                        }
+                    };
+                    t.path = remove_dot_segments(&merged);
+                }
+                t.query = r.query.clone();
+            }
+            t.authority = b.authority.clone();
+        }
+        t.scheme = b.scheme.clone();
+    }
+    t.fragment = r.fragment.clone();
+    let mut s = String::new();
+    if let Some(sc) = &t.scheme {
+        s.push_str(sc);
+        s.push(':');
+    }
+    if let Some(a) = &t.authority {
+        s.push_str("//");
+        s.push_str(a);
+    }
+    s.push_str(&t.path);
+    if let Some(q) = &t.query {
+        s.push('?');
+        s.push_str(q);
+    }
+    if let Some(f) = &t.fragment {
+        s.push('#');
+        s.push_str(f);
+    }
+    s
+}
